@@ -104,7 +104,7 @@ func idsOracle(c *kit.Case) error {
 	return nil
 }
 
-var hdToks = []string{"# a\n", "# a\n", "# a\n", "## a\n", "# a-1\n", "# a-1\n", "# A\n", "#\n", "# \n", "#\n", "# !!\n", "# ??\n", "# é\n", "# 日本\n", "a\n===\n", "a\n---\n", "a-1\n=\n", "> # a\n", "- # a\n", "  - a\n    =\n", "# a b\n", "# a_b\n", "# a  b\n",
+var hdToks = []string{"> ##\n", "- item\n\n  #\n", "#######\n", "######\n", "# a\n", "# a\n", "# a\n", "## a\n", "# a-1\n", "# a-1\n", "# A\n", "#\n", "# \n", "#\n", "# !!\n", "# ??\n", "# é\n", "# 日本\n", "a\n===\n", "a\n---\n", "a-1\n=\n", "> # a\n", "- # a\n", "  - a\n    =\n", "# a b\n", "# a_b\n", "# a  b\n",
 	"# heading\n", "# heading-1\n", "# heading\n", "\n", "x\n", "# *a*\n", "# `a`\n", "# a #\n", "# 1\n", "# a-1-1\n", "1. # a\n", ">> a\n>> ==\n", "# a\\\n", "# &amp;\n", "# &#97;\n", "# [a](u)\n", "# ![a](u)\n", "###### a\n", "# a-2\n", "# -\n", "# a-\n", "# -a\n", "# heading-2\n", "#  \t\n", "a\nb\n===\n", "# <b>\n", "# a&b\n", "# \\#\n", "multi\nline\n-----\n", "# A-1\n", "# a--1\n"}
 
 var noBrace = &gen.Profile{Name: "nobrace", ForbidBytes: "{"}
@@ -122,6 +122,13 @@ func drawHeadingDoc(t *rapid.T, label string) []byte {
 		if rapid.Bool().Draw(t, label+"blank") {
 			b = append(b, '\n')
 		}
+	}
+	switch rapid.IntRange(0, 7).Draw(t, label+"end") {
+	case 0, 1:
+		// the document ends without a line ending: the last heading (possibly just its '#' run) meets the end of input
+		b = bytes.TrimRight(b, "\n")
+	case 2:
+		b = gen.ByteMutate(t, noBrace, b, label+"bm")
 	}
 	return b
 }
